@@ -269,3 +269,61 @@ def replay_item(S, r):
         PROGRAMS = saved
     print('executed corpus program: %s' % ('STILL FAILS: %s' % c.f[0][0] if c.f else 'passes now'))
     return bool(c.f)
+
+
+# ------------------------------------------------------------------------------------------------ C03: reads that always fail
+# (source, name): executing the source ends in NameError / UnboundLocalError for `name`; that read has no definition on any
+# execution WHATEVER the branch outcomes, trip counts and call order (C03 quantifies over all of them: no `if 0`, no empty loop,
+# no call-before-definition here), so supp must list none for it (lint: 'Undefined name').  Module-level pseudo-names (__all__,
+# __path__), names bound only in another scope, only by an import of something else, declared global and never bound.
+UNDEFINED = [
+    ('print(__all__)\n', '__all__'), ('print(__path__)\n', '__path__'), ('print(undefined_zq)\n', 'undefined_zq'),
+    ('import os.path as p\nprint(os)\n', 'os'),
+    ('from os import path\nprint(sep)\n', 'sep'),
+    ('def f(a):\n    inner = a\nprint(inner)\n', 'inner'),
+    ('def f():\n    global y_zq\n    return y_zq\nf()\n', 'y_zq'),
+    ('class K:\n    attr = 1\nprint(attr)\n', 'attr'),
+    ('def f():\n    def g():\n        return hidden\n    return g()\nf()\nhidden_other = 1\n', 'hidden'),
+    ('print(__builtins_zq__)\n', '__builtins_zq__'), ('print(__loader_zq__, __spec_zq__)\n', '__loader_zq__'),
+]
+
+
+def run_undefined(check, S):
+    """C03: -> number of reads judged"""
+    import logging
+    logging.disable(logging.CRITICAL)
+    project = S['project'].Project(['/nonexistent-c03-exec'])
+    n = 0
+    for src, name in UNDEFINED:
+        ns = {'__name__': '__c03_exec__', '__file__': __file__}
+        ns.pop('__builtins__', None)
+        err = None
+        try:
+            import io
+            import contextlib
+            with contextlib.redirect_stdout(io.StringIO()):
+                exec(compile(src, '<c03-exec>', 'exec'), ns)
+        except NameError as e:
+            err = e
+        except BaseException as e:  # noqa
+            err = e
+        if not (isinstance(err, NameError) and getattr(err, 'name', None) == name):
+            check.oblige('c03 executed corpus: every program ends in NameError for the marked name under CPython', False,
+                         '%r: %r' % (src[:120], err))
+            continue
+        reads = [(n_.lineno, n_.col_offset) for n_ in ast.walk(ast.parse(src))
+                 if isinstance(n_, ast.Name) and n_.id == name and isinstance(n_.ctx, ast.Load)]
+        try:
+            diags = S['linter'].lint(project, src, '/nonexistent-c03-exec/m.py')
+        except Exception as e:  # noqa
+            continue
+        reported = set((d[2], d[3]) for d in diags if d[0] == 'E02' and d[1].endswith(': ' + name))
+        for r in reads:
+            n += 1
+            if r not in reported:
+                check.fail('C03 (executed corpus): a read that fails with NameError on every execution is not reported undefined '
+                           '(supp lists a definition no execution provides)',
+                           {'kind': 'c03_exec', 'source': src, 'read': [name, r[0], r[1]], 'diagnostics': [list(d[:4]) for d in diags]})
+    check.extra['executed_corpus_undefined'] = {'programs': len(UNDEFINED), 'reads_judged': n}
+    logging.disable(logging.NOTSET)
+    return n
